@@ -629,3 +629,501 @@ Theorem p2_exact : forall b,
   (ok b = false -> exists ns nc sched, race (mm (run b sched (init ns nc))) = true).
 Proof. intros b. split; [apply p2_sufficient|]. intros H. exists 1, 1, witness. apply p2_necessary; auto. Qed.
 End P2Proofs.
+
+(* ================================================================================================ P5 *)
+Module P5Proofs.
+Import P5.
+
+Definition readable_false (c : cfg) : Prop :=
+  forall p ms, nth_error (am (mm c) K) p = Some ms -> cur (ctv c) K <= ts_of (am (mm c) K) p -> mval ms = false.
+Definition readable_fresh (c : cfg) : Prop :=
+  forall p ms, nth_error (am (mm c) K) p = Some ms -> cur (ctv c) K <= ts_of (am (mm c) K) p -> mval ms = true ->
+               nts (mm c) Rv <= mview ms Rv.
+
+Record Inv (c : cfg) : Prop := {
+  j_a : cp c <> C2 -> gp c = G0 /\ nts (mm c) Rv <= cur (ctv c) Rv;
+  j_b : cp c = C1 -> readable_false c;
+  j_c : cp c = C2 -> match gp c with
+                     | G0 => readable_fresh c
+                     | _ => nts (mm c) Rv <= cur (gtv c) Rv /\ readable_false c end;
+  j_race : race (mm c) = false }.
+
+Lemma K_ne_Rv : K <> Rv. Proof. discriminate. Qed.
+Lemma Rv_ne_K : Rv <> K. Proof. discriminate. Qed.
+
+Lemma inv_init : Inv init.
+Proof. constructor; cbn; try discriminate; auto. Qed.
+
+Lemma ts_cons_S {V} (x : msg V) l p : ts_of (x :: l) (Datatypes.S p) = ts_of l p.
+Proof. unfold ts_of. cbn [length]. lia. Qed.
+Lemma ts_cons_0 {V} (x : msg V) l : ts_of (x :: l) 0 = length l.
+Proof. unfold ts_of. cbn [length]. lia. Qed.
+
+Lemma step_inv b c ch : ok b = true -> Inv c -> Inv (step b c ch).
+Proof.
+  intros Hok I. unfold ok in Hok. apply andb_true_iff in Hok. destruct Hok as [Hsr Hwa].
+  pose proof I as I0. destruct I as [Ja Jb Jc Jr].
+  destruct ch as [p|]; cbn [step].
+  - destruct (cp c) eqn:Ecp.
+    + (* C0: reset *)
+      destruct (at_write (rr b) K false (ctv c) (mm c)) as [tv m] eqn:E. apply at_write_spec in E.
+      destruct E as (nm & Ea' & Eo & Evn & En & Er & Hc & _ & _ & HcK).
+      destruct Ja as [Hg Hf]; [discriminate|].
+      constructor; cbn [cp ctv gp gtv mm]; try discriminate.
+      * intros _. split; auto. rewrite En, (Hc Rv Rv_ne_K). exact Hf.
+      * intros _ q ms Eq Hq. cbn [mm ctv] in *. rewrite Ea' in Eq, Hq. destruct q as [|q].
+        -- cbn in Eq. inversion Eq; subst. exact Evn.
+        -- exfalso. rewrite ts_cons_S in Hq. cbn in Eq. apply nth_error_lt in Eq. unfold ts_of in Hq. lia.
+      * rewrite Er. exact Jr.
+    + (* C1: hand the generator over *)
+      destruct (gp c) eqn:Egp; try exact I0.
+      destruct Ja as [_ Hf]; [discriminate|].
+      constructor; cbn [cp ctv gp gtv mm]; try discriminate; auto.
+      * intros H; congruence.
+      * intros _. split.
+        -- cbn. etransitivity; [exact Hf|apply vjoin_r].
+        -- exact (Jb eq_refl).
+    + (* C2: wait *)
+      destruct (at_read (wa b) K p (ctv c) (mm c)) as [[v tv]|] eqn:E; [|exact I0].
+      apply at_read_spec in E. destruct E as (ms & En & Ev & Hle & Hmono & _ & _ & Hacq & HK & _).
+      specialize (Jc eq_refl).
+      assert (SHR : forall q, cur tv K <= ts_of (am (mm c) K) q -> cur (ctv c) K <= ts_of (am (mm c) K) q).
+      { intros q Hq. specialize (Hmono K). lia. }
+      destruct v.
+      * (* sees true *)
+        destruct (gp c) eqn:Egp.
+        -- constructor; cbn [cp ctv gp gtv mm]; try discriminate.
+           ++ intros _. split; auto. specialize (Jc p ms En Hle Ev). specialize (Hacq Hwa Rv). lia.
+           ++ exact Jr.
+        -- destruct Jc as [_ Hrf]. specialize (Hrf p ms En Hle). congruence.
+        -- destruct Jc as [_ Hrf]. specialize (Hrf p ms En Hle). congruence.
+      * constructor; cbn [cp ctv gp gtv mm]; try discriminate.
+        -- intros H; congruence.
+        -- intros _. destruct (gp c).
+           ++ intros q ms' Eq Hq Hv. cbn [mm ctv] in *. exact (Jc q ms' Eq (SHR q Hq) Hv).
+           ++ destruct Jc as [Hf Hrf]. split; auto. intros q ms' Eq Hq. cbn [mm ctv] in *. exact (Hrf q ms' Eq (SHR q Hq)).
+           ++ destruct Jc as [Hf Hrf]. split; auto. intros q ms' Eq Hq. cbn [mm ctv] in *. exact (Hrf q ms' Eq (SHR q Hq)).
+        -- exact Jr.
+    + (* C3: use the result *)
+      destruct (na_write (ctv c) (mm c) Rv) as [tv m] eqn:E. apply na_write_spec in E.
+      destruct E as (Eam & Ex & Eo & Er & Ec & _ & _).
+      destruct Ja as [Hg Hf]; [discriminate|].
+      constructor; cbn [cp ctv gp gtv mm]; try discriminate.
+      * intros _. split; auto. rewrite Ec, Ex. lia.
+      * rewrite Er, Jr. cbn. apply negb_false_iff, Nat.leb_le. exact Hf.
+  - destruct (gp c) eqn:Egp; [exact I0| |].
+    + (* G1: produce the result *)
+      destruct (na_write (gtv c) (mm c) Rv) as [tv m] eqn:E. apply na_write_spec in E.
+      destruct E as (Eam & Ex & Eo & Er & Ec & _ & _).
+      assert (Ecp : cp c = C2).
+      { destruct (cp c) eqn:Ecp; auto; destruct Ja as [Hg _]; try discriminate; congruence. }
+      specialize (Jc Ecp). try rewrite Egp in Jc. destruct Jc as [Hf Hrf].
+      constructor; cbn [cp ctv gp gtv mm].
+      * intros H; congruence.
+      * intros H; congruence.
+      * intros _. split; [rewrite Ec, Ex; lia|]. intros q ms Eq Hq. cbn [mm ctv] in *. rewrite Eam in Eq, Hq. eapply Hrf; eauto.
+      * rewrite Er, Jr. cbn. apply negb_false_iff, Nat.leb_le. exact Hf.
+    + (* G2: set the flag *)
+      destruct (at_write (sr b) K true (gtv c) (mm c)) as [tv m] eqn:E. apply at_write_spec in E.
+      destruct E as (nm & Ea' & Eo & Evn & En & Er & Hc & _ & Hrel & _).
+      assert (Ecp : cp c = C2).
+      { destruct (cp c) eqn:Ecp; auto; destruct Ja as [Hg _]; try discriminate; congruence. }
+      specialize (Jc Ecp). try rewrite Egp in Jc. destruct Jc as [Hf Hrf].
+      constructor; cbn [cp ctv gp gtv mm].
+      * intros H; congruence.
+      * intros H; congruence.
+      * intros _ q ms Eq Hq Hv. cbn [mm ctv] in *. rewrite Ea' in Eq, Hq. rewrite En. destruct q as [|q].
+        -- cbn in Eq. inversion Eq; subst ms. rewrite (Hrel Hsr Rv Rv_ne_K). exact Hf.
+        -- cbn in Eq. rewrite ts_cons_S in Hq. specialize (Hrf q ms Eq Hq). congruence.
+      * rewrite Er. exact Jr.
+Qed.
+
+Lemma run_inv b sched : ok b = true -> forall c, Inv c -> Inv (run b sched c).
+Proof. intros Hok. induction sched as [|ch t IH]; intros c I; cbn; auto. apply IH, step_inv; auto. Qed.
+
+Theorem p5_sufficient b : ok b = true -> forall sched, race (mm (run b sched init)) = false.
+Proof. intros Hok sched. apply j_race, run_inv; auto using inv_init. Qed.
+
+Definition witness : list choice := [StepC 0; StepC 0; StepG; StepG; StepC 0; StepC 0].
+Theorem p5_necessary b : ok b = false -> race (mm (run b witness init)) = true.
+Proof. destruct b as [a1 a2 a3]. destruct a2, a3; cbn [ok sr wa andb]; intros H; try discriminate H; destruct a1; vm_compute; reflexivity. Qed.
+
+Theorem p5_exact : forall b,
+  (ok b = true -> forall sched, race (mm (run b sched init)) = false) /\
+  (ok b = false -> exists sched, race (mm (run b sched init)) = true).
+Proof. intros b. split; [apply p5_sufficient|]. intros H. exists witness. apply p5_necessary; auto. Qed.
+End P5Proofs.
+
+(* ================================================================================================ P6 *)
+Module P6Proofs.
+Import P6.
+
+Record Inv (c : cfg) : Prop := {
+  k_slot : exists ms rest, am (mm c) O = ms :: rest /\ (mval ms = true -> Forall (fun t => tp t = T0) (ths c));
+  k_uniq : forall i j ti tj, nth_error (ths c) i = Some ti -> nth_error (ths c) j = Some tj ->
+           tp ti = TWin -> tp tj = TWin -> i = j;
+  k_all0 : Forall (fun t => tp t = T0) (ths c) -> nts (mm c) Fu = 1;
+  k_cur : Forall (fun t => 1 <= cur (ttv t) Fu) (ths c);
+  k_le : nts (mm c) Fu <= 2;
+  k_win1 : forall t, In t (ths c) -> tp t = TWin -> nts (mm c) Fu = 1;
+  k_race : race (mm c) = false }.
+
+Lemma Fu_ne_O : Fu <> O. Proof. discriminate. Qed.
+
+Lemma inv_init n : Inv (init n).
+Proof.
+  assert (A : Forall (fun t => tp t = T0) (repeat (Th T0 tv1) n)).
+  { apply Forall_forall. intros t Ht. apply repeat_spec in Ht. subst. reflexivity. }
+  assert (B1 : vset vbot Fu 1 Fu = 1) by apply vset_same.
+  constructor; unfold init; cbn [ths mm am nts race]; auto; try lia.
+  all: try (eexists _, _; split; [reflexivity|]; auto; fail).
+  all: try (intros i j ti tj Ei _ Hi; apply nth_error_In, repeat_spec in Ei; subst; discriminate).
+  all: try (apply Forall_forall; intros t Ht; apply repeat_spec in Ht; subst; unfold tv1; cbn [ttv cur]; lia).
+  all: try (intros t Ht Hw; apply repeat_spec in Ht; subst; discriminate).
+Qed.
+
+Lemma step_inv b c t : Inv c -> Inv (step b c t).
+Proof.
+  intros I. pose proof I as I0. destruct I as [(ms & rest & Ea & Htrue) Iu Iall Icur Ile Iw Irc].
+  unfold step. destruct (nth_error (ths c) t) as [[p tv]|] eqn:Et; [|exact I0].
+  assert (Hcur : 1 <= cur tv Fu) by (eapply Forall_nth_error in Icur; eauto; exact Icur).
+  destruct p; try exact I0.
+  - destruct (rmw (xa b) (xr b) O (fun _ => false) tv (mm c)) as [[[v tv'] m]|] eqn:E; [|exact I0].
+    apply rmw_spec in E.
+    destruct E as (ms' & rest' & nm & Ea0 & Ev & Ea' & Eo & Evn & En & Er & Hc & _).
+    rewrite Ea in Ea0. inversion Ea0; subst ms' rest'. clear Ea0.
+    assert (Hcur' : 1 <= cur tv' Fu) by (specialize (Hc Fu Fu_ne_O); lia).
+    assert (NOT0 : forall p', p' <> T0 -> ~ Forall (fun x => tp x = T0) (set_nth (ths c) t (Th p' tv'))).
+    { intros p' Hp F. eapply Forall_nth_error in F; [|apply nth_error_set_nth_same; eapply nth_error_lt; eauto]. cbn in F. auto. }
+    destruct v.
+    + (* winner *)
+      specialize (Htrue Ev). pose proof (Iall Htrue) as Hn1.
+      constructor; cbn [ths mm].
+      * rewrite Ea'. eexists _, _. split; [reflexivity|]. rewrite Evn. discriminate.
+      * intros i j ti tj Ei Ej Wi Wj.
+        rewrite (nth_set_nth _ _ _ _ _ Et) in Ei. rewrite (nth_set_nth _ _ _ _ _ Et) in Ej.
+        destruct (Nat.eqb_spec i t) as [Hi|Ni]; destruct (Nat.eqb_spec j t) as [Hj|Nj]; try congruence.
+        all: try (eapply (Forall_nth_error _ _ j) in Htrue; [|exact Ej]; congruence).
+        all: try (eapply (Forall_nth_error _ _ i) in Htrue; [|exact Ei]; congruence).
+      * intros F. exfalso. eapply NOT0; eauto. discriminate.
+      * apply Forall_set_nth; auto.
+      * rewrite En; auto.
+      * intros x _ _. rewrite En. auto.
+      * rewrite Er; auto.
+    + (* lost *)
+      constructor; cbn [ths mm].
+      * rewrite Ea'. eexists _, _. split; [reflexivity|]. rewrite Evn. discriminate.
+      * intros i j ti tj Ei Ej Wi Wj.
+        rewrite (nth_set_nth _ _ _ _ _ Et) in Ei. rewrite (nth_set_nth _ _ _ _ _ Et) in Ej.
+        destruct (Nat.eqb_spec i t) as [Hi|Ni]; [inversion Ei; subst ti; discriminate|].
+        destruct (Nat.eqb_spec j t) as [Hj|Nj]; [inversion Ej; subst tj; discriminate|].
+        eapply Iu; eauto.
+      * intros F. exfalso. eapply NOT0; eauto. discriminate.
+      * apply Forall_set_nth; auto.
+      * rewrite En; auto.
+      * intros x Hx Hw. rewrite En. apply In_nth_error in Hx. destruct Hx as [i Ei].
+        rewrite (nth_set_nth _ _ _ _ _ Et) in Ei. destruct (Nat.eqb_spec i t) as [Hi|Ni].
+        -- inversion Ei; subst x. discriminate.
+        -- eapply Iw; eauto. eapply nth_error_In; eauto.
+      * rewrite Er; auto.
+  - (* the winner writes the future *)
+    destruct (na_write tv (mm c) Fu) as [tv' m] eqn:E. apply na_write_spec in E.
+    destruct E as (Eam & Ex & Eo & Er & Ec & _ & _).
+    assert (Hn1 : nts (mm c) Fu = 1) by (eapply (Iw (Th TWin tv)); [eapply nth_error_In; eauto|reflexivity]).
+    assert (NOT0 : ~ Forall (fun x => tp x = T0) (set_nth (ths c) t (Th TDone tv'))).
+    { intros F. eapply Forall_nth_error in F; [|apply nth_error_set_nth_same; eapply nth_error_lt; eauto]. discriminate. }
+    assert (NOWIN : forall x, In x (set_nth (ths c) t (Th TDone tv')) -> tp x <> TWin).
+    { intros x Hx Hw. apply In_nth_error in Hx. destruct Hx as [i Ei].
+      rewrite (nth_set_nth _ _ _ _ _ Et) in Ei. destruct (Nat.eqb_spec i t) as [Hi|Ni].
+      - inversion Ei; subst x. discriminate.
+      - apply Ni. eapply (Iu i t); eauto. }
+    constructor; cbn [ths mm].
+    + rewrite Eam, Ea. eexists _, _. split; [reflexivity|]. intros Hv. specialize (Htrue Hv).
+      eapply Forall_nth_error in Htrue; eauto. discriminate.
+    + intros i j ti tj Ei Ej Wi Wj. exfalso. eapply NOWIN; [eapply nth_error_In; eauto|auto].
+    + intros F. exfalso. auto.
+    + apply Forall_set_nth; auto. cbn. rewrite Ec. lia.
+    + rewrite Ex. lia.
+    + intros x Hx Hw. exfalso. eapply NOWIN; eauto.
+    + rewrite Er, Irc. cbn. apply negb_false_iff, Nat.leb_le. lia.
+Qed.
+
+Lemma run_inv b sched : forall c, Inv c -> Inv (run b sched c).
+Proof. induction sched as [|ch t IH]; intros c I; cbn; auto. apply IH, step_inv; auto. Qed.
+
+(* every order of the claiming exchange is sufficient: only one thread ever writes the future *)
+Theorem p6_race_free b n sched : race (mm (run b sched (init n))) = false.
+Proof. apply k_race, run_inv, inv_init. Qed.
+
+Theorem p6_single_writer b n sched : nts (mm (run b sched (init n))) Fu <= 2.
+Proof. apply k_le, run_inv, inv_init. Qed.
+End P6Proofs.
+
+(* ================================================================================================ P3 *)
+Module P3Proofs.
+Import P3.
+
+Definition crit (p : pc) : bool := match p with T0 | TS => false | _ => true end.
+Definition holds_data (p : pc) : bool := match p with TC _ | TU _ => true | _ => false end.
+
+Record Inv (b : bits) (c : cfg) : Prop := {
+  m_slot : exists ms rest, am (mm c) M = ms :: rest /\
+           (fst (mval ms) = false -> snd (mval ms) = 0 /\ Forall (fun t => crit (tp t) = false) (ths c) /\
+                                     nts (mm c) DATA <= mview ms DATA) /\
+           (forall t, In t (ths c) -> tp t = TB -> nts (mm c) DATA <= mview ms DATA);
+  m_uniq : forall i j ti tj, nth_error (ths c) i = Some ti -> nth_error (ths c) j = Some tj ->
+           crit (tp ti) = true -> crit (tp tj) = true -> i = j;
+  m_own : forall t, In t (ths c) -> holds_data (tp t) = true -> nts (mm c) DATA <= cur (ttv t) DATA;
+  m_race : race (mm c) = false;
+  m_tb : forall t, In t (ths c) -> tp t = TB -> sa b = true -> nts (mm c) DATA <= cur (ttv t) DATA }.
+
+Lemma DATA_ne_M : DATA <> M. Proof. discriminate. Qed.
+
+Lemma inv_init b n : Inv b (init n).
+Proof.
+  assert (A : forall t, In t (repeat (Th T0 tv0) n) -> t = Th T0 tv0) by (intros t Ht; apply repeat_spec in Ht; auto).
+  constructor; unfold init; cbn [ths mm am nts race mem0].
+  - eexists _, _. split; [reflexivity|]. cbn. split.
+    + intros _. split; auto. split; [|lia]. apply Forall_forall. intros t Ht. rewrite (A _ Ht). reflexivity.
+    + intros t Ht Hp. rewrite (A _ Ht) in Hp. discriminate.
+  - intros i j ti tj Ei _ Hi. apply nth_error_In in Ei. rewrite (A _ Ei) in Hi. discriminate.
+  - intros t Ht Hp. rewrite (A _ Ht) in Hp. discriminate.
+  - reflexivity.
+  - intros t Ht Hp. rewrite (A _ Ht) in Hp. discriminate.
+Qed.
+
+(* bookkeeping for `upd` *)
+Lemma in_upd (l : list thr) t p tv x old : nth_error l t = Some old -> In x (set_nth l t (Th p tv)) ->
+  x = Th p tv \/ (exists i, i <> t /\ nth_error l i = Some x).
+Proof.
+  intros Et Hx. apply In_nth_error in Hx. destruct Hx as [i Ei].
+  rewrite (nth_set_nth _ _ _ _ _ Et) in Ei. destruct (Nat.eqb_spec i t) as [Hi|Ni].
+  - left. congruence.
+  - right. eauto.
+Qed.
+
+Lemma no_other_crit b c t old x i : Inv b c -> nth_error (ths c) t = Some old -> crit (tp old) = true ->
+  i <> t -> nth_error (ths c) i = Some x -> crit (tp x) = false.
+Proof.
+  intros I Et Ho Ni Ei. destruct (crit (tp x)) eqn:E; auto. exfalso. apply Ni. eapply (m_uniq _ _ I i t); eauto.
+Qed.
+
+Lemma uniq_upd b c t p tv m old :
+  Inv b c -> nth_error (ths c) t = Some old ->
+  (crit p = true -> crit (tp old) = true \/ Forall (fun x => crit (tp x) = false) (ths c)) ->
+  forall i j ti tj, nth_error (ths (upd c t p tv m)) i = Some ti -> nth_error (ths (upd c t p tv m)) j = Some tj ->
+  crit (tp ti) = true -> crit (tp tj) = true -> i = j.
+Proof.
+  intros I Et Hp i j ti tj Ei Ej Ci Cj. cbn [upd ths] in Ei, Ej.
+  rewrite (nth_set_nth _ _ _ _ _ Et) in Ei. rewrite (nth_set_nth _ _ _ _ _ Et) in Ej.
+  destruct (Nat.eqb_spec i t) as [Hi|Ni]; destruct (Nat.eqb_spec j t) as [Hj|Nj]; try congruence.
+  - inversion Ei; subst ti. cbn in Ci. destruct (Hp Ci) as [Ho|Hall].
+    + exfalso. apply Nj. eapply (m_uniq _ _ I j t); eauto.
+    + eapply Forall_nth_error in Hall; eauto. congruence.
+  - inversion Ej; subst tj. cbn in Cj. destruct (Hp Cj) as [Ho|Hall].
+    + exfalso. apply Ni. eapply (m_uniq _ _ I i t); eauto.
+    + eapply Forall_nth_error in Hall; eauto. congruence.
+  - eapply (m_uniq _ _ I); eauto.
+Qed.
+
+Lemma step_inv b c ch : ok b = true -> Inv b c -> Inv b (step b c ch).
+Proof.
+  intros Hok I. unfold ok in Hok. apply andb_true_iff in Hok. destruct Hok as [Hok Hxs].
+  apply andb_true_iff in Hok. destruct Hok as [Hta Hur].
+  pose proof I as I0. destruct I as [(ms & rest & Ea & Hfree & Htb) Iu Io Irc Itb].
+  destruct ch as [t arg].
+  (* helper: after the step no thread other than t is in TB when all others are outside the critical region *)
+  assert (NOTB : forall pnew tvn old, nth_error (ths c) t = Some old ->
+            (forall i x, i <> t -> nth_error (ths c) i = Some x -> crit (tp x) = false) ->
+            forall x, In x (set_nth (ths c) t (Th pnew tvn)) -> tp x = TB -> x = Th pnew tvn).
+  { intros pnew tvn old Eo Hoth x Hx Hp. destruct (in_upd _ _ _ _ _ _ Eo Hx) as [->|(i & Ni & Ei)]; auto.
+    specialize (Hoth i x Ni Ei). rewrite Hp in Hoth. discriminate. }
+  (* helper: the other threads keep their TB claim when the write counter of DATA does not change *)
+  assert (TBOLD : forall pnew tvn (m : mem (bool * nat)) old, nth_error (ths c) t = Some old -> pnew <> TB -> nts m = nts (mm c) ->
+            forall x, In x (set_nth (ths c) t (Th pnew tvn)) -> tp x = TB -> sa b = true -> nts m DATA <= cur (ttv x) DATA).
+  { intros pnew tvn m old Eo Hne Hn x Hx Hp Hs. rewrite Hn. destruct (in_upd _ _ _ _ _ _ Eo Hx) as [->|(i & Ni & Ei)].
+    - cbn in Hp. congruence.
+    - exact (Itb x (nth_error_In _ _ Ei) Hp Hs). }
+  unfold step.
+  destruct (nth_error (ths c) t) as [[p tv]|] eqn:Et; [|exact I0].
+  assert (Int : In (Th p tv) (ths c)) by (eapply nth_error_In; eauto).
+  destruct p as [| | |q|q].
+  - (* T0: ready() *)
+    destruct arg as [|pp].
+    + rewrite Ea. destruct ms as [[[|] n0] mv]; [exact I0|].
+      destruct (rmw (ta b) (tr b) M (fun _ => (true, 0)) tv (mm c)) as [[[v tv'] m]|] eqn:E; [|exact I0].
+      apply rmw_spec in E.
+      destruct E as (ms' & rest' & nm & Ea0 & Ev & Ea' & Eo & Evn & En & Er & Hc & _ & Hacq & Hmv & _ & _).
+      rewrite Ea in Ea0. inversion Ea0; subst ms' rest'. clear Ea0.
+      destruct (Hfree eq_refl) as (_ & Hall & Hfr). cbn [mview] in Hfr.
+      constructor.
+      * cbn [upd mm ths]. rewrite Ea'. eexists _, _. split; [reflexivity|]. rewrite Evn. cbn [fst snd]. split; [discriminate|].
+        intros x Hx Hp. destruct (in_upd _ _ _ _ _ _ Et Hx) as [->|(i & Ni & Ei)]; [discriminate|].
+        eapply Forall_nth_error in Hall; eauto. rewrite Hp in Hall. discriminate.
+      * eapply uniq_upd; eauto.
+      * intros x Hx Hp. cbn [upd mm]. rewrite En. destruct (in_upd _ _ _ _ _ _ Et Hx) as [->|(i & Ni & Ei)].
+        -- cbn [ttv]. specialize (Hacq Hta DATA DATA_ne_M). cbn [mview] in Hacq. lia.
+        -- eapply Forall_nth_error in Hall; eauto. destruct (tp x); discriminate.
+      * cbn [upd mm]. rewrite Er. exact Irc.
+      * intros x Hx Hp Hs. cbn [upd ths] in Hx.
+        assert (x = Th (TC 0) tv') as -> by (eapply NOTB; eauto; intros i y Ni Ey; eapply Forall_nth_error in Hall; eauto).
+        discriminate.
+    + destruct (at_read (tfa b) M pp tv (mm c)) as [[[[|] n0] tv']|] eqn:E; try exact I0.
+      constructor.
+      * cbn [upd mm ths]. rewrite Ea. eexists _, _. split; [reflexivity|]. split.
+        -- intros Hf. destruct (Hfree Hf) as (Hn & Hall & Hfr). split; auto. split; auto.
+           apply Forall_set_nth; auto.
+        -- intros x Hx Hp. destruct (in_upd _ _ _ _ _ _ Et Hx) as [->|(i & Ni & Ei)]; [discriminate|].
+           exact (Htb x (nth_error_In _ _ Ei) Hp).
+      * eapply uniq_upd; eauto; cbn; discriminate.
+      * intros x Hx Hp. cbn [upd mm]. destruct (in_upd _ _ _ _ _ _ Et Hx) as [->|(i & Ni & Ei)]; [discriminate|].
+        exact (Io x (nth_error_In _ _ Ei) Hp).
+      * exact Irc.
+      * intros x Hx Hp Hs. cbn [upd ths mm] in *. eapply (TBOLD TS tv' (mm c)); eauto. discriminate.
+  - (* TS: subscribe *)
+    destruct (rmw (sa b) (sr b) M (fun v : bool * nat => if fst v then (true, S (snd v)) else (true, 0)) tv (mm c))
+      as [[[v tv'] m]|] eqn:E; [|exact I0].
+    apply rmw_spec in E.
+    destruct E as (ms' & rest' & nm & Ea0 & Ev & Ea' & Eo & Evn & En & Er & Hc & _ & Hacq & Hmv & _ & _).
+    rewrite Ea in Ea0. inversion Ea0; subst ms' rest'. clear Ea0.
+    destruct v as [[|] n0].
+    + (* queued *)
+      constructor.
+      * cbn [upd mm ths]. rewrite Ea'. eexists _, _. split; [reflexivity|]. rewrite Evn. cbn [fst snd]. split; [discriminate|].
+        intros x Hx Hp. rewrite En. destruct (in_upd _ _ _ _ _ _ Et Hx) as [->|(i & Ni & Ei)]; [discriminate|].
+        specialize (Htb x (nth_error_In _ _ Ei) Hp). specialize (Hmv DATA). lia.
+      * eapply uniq_upd; eauto; cbn; discriminate.
+      * intros x Hx Hp. cbn [upd mm]. rewrite En. destruct (in_upd _ _ _ _ _ _ Et Hx) as [->|(i & Ni & Ei)]; [discriminate|].
+        exact (Io x (nth_error_In _ _ Ei) Hp).
+      * cbn [upd mm]. rewrite Er. exact Irc.
+      * intros x Hx Hp Hs. cbn [upd ths mm] in *. eapply (TBOLD T0 tv' m); eauto. discriminate.
+    + (* the mutex was free: now held, doorman still to be installed *)
+      assert (Hf : fst (mval ms) = false) by (rewrite Ev; reflexivity).
+      destruct (Hfree Hf) as (_ & Hall & Hfr).
+      constructor.
+      * cbn [upd mm ths]. rewrite Ea'. eexists _, _. split; [reflexivity|]. rewrite Evn. cbn [fst snd]. split; [discriminate|].
+        intros x Hx Hp. rewrite En. specialize (Hmv DATA). lia.
+      * eapply uniq_upd; eauto.
+      * intros x Hx Hp. cbn [upd mm]. rewrite En. destruct (in_upd _ _ _ _ _ _ Et Hx) as [->|(i & Ni & Ei)]; [discriminate|].
+        eapply Forall_nth_error in Hall; eauto. destruct (tp x); discriminate.
+      * cbn [upd mm]. rewrite Er. exact Irc.
+      * intros x Hx Hp Hs. cbn [upd ths mm] in *.
+        assert (x = Th TB tv') as -> by (eapply NOTB; eauto; intros i y Ni Ey; eapply Forall_nth_error in Hall; eauto).
+        cbn [ttv]. rewrite En. specialize (Hacq Hs DATA DATA_ne_M). lia.
+  - (* TB: build_queue(aw) *)
+    destruct (rmw (xa b) (xr b) M (fun _ => (true, 0)) tv (mm c)) as [[[[l n0] tv'] m]|] eqn:E; [|exact I0].
+    apply rmw_spec in E.
+    destruct E as (ms' & rest' & nm & Ea0 & Ev & Ea' & Eo & Evn & En & Er & Hc & _ & Hacq & Hmv & _ & _).
+    rewrite Ea in Ea0. inversion Ea0; subst ms' rest'. clear Ea0.
+    pose proof (Htb _ Int eq_refl) as Hfr.
+    constructor.
+    + cbn [upd mm ths]. rewrite Ea'. eexists _, _. split; [reflexivity|]. rewrite Evn. cbn [fst snd]. split; [discriminate|].
+      intros x Hx Hp. destruct (in_upd _ _ _ _ _ _ Et Hx) as [->|(i & Ni & Ei)]; [discriminate|].
+      pose proof (no_other_crit b c t _ x i I0 Et eq_refl Ni Ei) as Hnc. rewrite Hp in Hnc. discriminate.
+    + eapply uniq_upd; eauto.
+    + intros x Hx Hp. cbn [upd mm]. rewrite En. destruct (in_upd _ _ _ _ _ _ Et Hx) as [->|(i & Ni & Ei)].
+      * cbn [ttv]. destruct (xa b) eqn:Exa.
+        -- specialize (Hacq eq_refl DATA DATA_ne_M). lia.
+        -- cbn in Hxs. specialize (Itb _ Int eq_refl Hxs). cbn [ttv] in Itb. specialize (Hc DATA DATA_ne_M). lia.
+      * pose proof (no_other_crit b c t _ x i I0 Et eq_refl Ni Ei) as Hnc. destruct (tp x); discriminate.
+    + cbn [upd mm]. rewrite Er. exact Irc.
+    + intros x Hx Hp Hs. cbn [upd ths mm] in *.
+      assert (x = Th (TC n0) tv') as -> by (eapply NOTB; eauto; intros i y Ni Ey; eapply (no_other_crit b c t); eauto).
+      discriminate.
+  - (* TC: the critical section *)
+    destruct (na_write tv (mm c) DATA) as [tv' m] eqn:E. apply na_write_spec in E.
+    destruct E as (Eam & Ex & Eo & Er & Ec & _ & _).
+    pose proof (Io _ Int eq_refl) as Hfr. cbn [ttv] in Hfr.
+    constructor.
+    + cbn [upd mm ths]. rewrite Eam, Ea. eexists _, _. split; [reflexivity|]. split.
+      * intros Hf. destruct (Hfree Hf) as (_ & Hall & _). eapply Forall_nth_error in Hall; eauto. discriminate.
+      * intros x Hx Hp. destruct (in_upd _ _ _ _ _ _ Et Hx) as [->|(i & Ni & Ei)]; [discriminate|].
+        pose proof (no_other_crit b c t _ x i I0 Et eq_refl Ni Ei) as Hnc. rewrite Hp in Hnc. discriminate.
+    + eapply uniq_upd; eauto.
+    + intros x Hx Hp. cbn [upd mm]. destruct (in_upd _ _ _ _ _ _ Et Hx) as [->|(i & Ni & Ei)].
+      * cbn [ttv]. rewrite Ec, Ex. lia.
+      * pose proof (no_other_crit b c t _ x i I0 Et eq_refl Ni Ei) as Hnc. destruct (tp x); discriminate.
+    + cbn [upd mm]. rewrite Er, Irc. cbn. apply negb_false_iff, Nat.leb_le. exact Hfr.
+    + intros x Hx Hp Hs. cbn [upd ths mm] in *.
+      assert (x = Th (TU q) tv') as -> by (eapply NOTB; eauto; intros i y Ni Ey; eapply (no_other_crit b c t); eauto).
+      discriminate.
+  - (* TU: unlock *)
+    pose proof (Io _ Int eq_refl) as Hfr. cbn [ttv] in Hfr.
+    assert (KEEP : forall q', Inv b (upd c t (TC q') tv (mm c))).
+    { intros q'. constructor.
+      - cbn [upd mm ths]. rewrite Ea. eexists _, _. split; [reflexivity|]. split.
+        + intros Hf. destruct (Hfree Hf) as (_ & Hall & _). eapply Forall_nth_error in Hall; eauto. discriminate.
+        + intros x Hx Hp. destruct (in_upd _ _ _ _ _ _ Et Hx) as [->|(i & Ni & Ei)]; [discriminate|].
+          exact (Htb x (nth_error_In _ _ Ei) Hp).
+      - eapply uniq_upd; eauto.
+      - intros x Hx Hp. cbn [upd mm]. destruct (in_upd _ _ _ _ _ _ Et Hx) as [->|(i & Ni & Ei)]; auto.
+        exact (Io x (nth_error_In _ _ Ei) Hp).
+      - exact Irc.
+      - intros x Hx Hp Hs. cbn [upd ths mm] in *. eapply (TBOLD (TC q') tv (mm c)); eauto. discriminate. }
+    destruct q as [|q]; [|apply KEEP].
+    assert (XCHG : forall rv tv' m, rmw (xa b) (xr b) M (fun _ => (true, 0)) tv (mm c) = Some (rv, tv', m) ->
+                   forall p', holds_data p' = true -> Inv b (upd c t p' tv' m)).
+    { intros rv tv' m E p' Hp'. apply rmw_spec in E.
+      destruct E as (ms' & rest' & nm & Ea0 & Ev & Ea' & Eo & Evn & En & Er & Hc & _ & _ & Hmv & _ & _).
+      rewrite Ea in Ea0. inversion Ea0; subst ms' rest'. clear Ea0.
+      constructor.
+      - cbn [upd mm ths]. rewrite Ea'. eexists _, _. split; [reflexivity|]. rewrite Evn. cbn [fst snd]. split; [discriminate|].
+        intros x Hx Hp. destruct (in_upd _ _ _ _ _ _ Et Hx) as [->|(i & Ni & Ei)]; [cbn in Hp; rewrite Hp in Hp'; discriminate|].
+        pose proof (no_other_crit b c t _ x i I0 Et eq_refl Ni Ei) as Hnc. rewrite Hp in Hnc. discriminate.
+      - eapply uniq_upd; eauto.
+      - intros x Hx Hp. cbn [upd mm]. rewrite En. destruct (in_upd _ _ _ _ _ _ Et Hx) as [->|(i & Ni & Ei)].
+        + cbn [ttv]. specialize (Hc DATA DATA_ne_M). lia.
+        + pose proof (no_other_crit b c t _ x i I0 Et eq_refl Ni Ei) as Hnc. destruct (tp x); discriminate.
+      - cbn [upd mm]. rewrite Er. exact Irc.
+      - intros x Hx Hp Hs. cbn [upd ths mm] in *.
+        assert (x = Th p' tv') as -> by (eapply NOTB; eauto; intros i y Ni Ey; eapply (no_other_crit b c t); eauto).
+        cbn in Hp. rewrite Hp in Hp'. discriminate. }
+    assert (XCASE : Inv b match rmw (xa b) (xr b) M (fun _ => (true, 0)) tv (mm c) with
+                        | Some ((_, S n), tv', m) => upd c t (TC n) tv' m
+                        | Some ((_, 0), tv', m) => upd c t (TU 0) tv' m
+                        | None => c end).
+    { destruct (rmw (xa b) (xr b) M (fun _ => (true, 0)) tv (mm c)) as [[[[l [|n0]] tv'] m]|] eqn:E; [| |exact I0];
+        eapply XCHG; eauto. }
+    rewrite Ea. destruct ms as [[[|] [|n0]] mv]; try exact XCASE.
+    (* doorman only: the unlocking CAS succeeds *)
+    destruct (rmw (ua b) (ur b) M (fun _ => (false, 0)) tv (mm c)) as [[[v tv'] m]|] eqn:E; [|exact I0].
+    apply rmw_spec in E.
+    destruct E as (ms' & rest' & nm & Ea0 & Ev & Ea' & Eo & Evn & En & Er & Hc & _ & _ & Hmv & Hrel & _).
+    rewrite Ea in Ea0. inversion Ea0; subst ms' rest'. clear Ea0.
+    assert (Hall : Forall (fun x => crit (tp x) = false) (ths (upd c t T0 tv' m))).
+    { apply Forall_forall. intros x Hx. destruct (in_upd _ _ _ _ _ _ Et Hx) as [->|(i & Ni & Ei)]; [reflexivity|].
+      eapply (no_other_crit b c t _ x i I0 Et); eauto. }
+    constructor.
+    + cbn [upd mm ths] in *. rewrite Ea'. eexists _, _. split; [reflexivity|]. rewrite Evn. cbn [fst snd]. split.
+      * intros _. split; auto. split; auto. rewrite En. specialize (Hrel Hur DATA DATA_ne_M). lia.
+      * intros x Hx Hp. rewrite Forall_forall in Hall. specialize (Hall x Hx). rewrite Hp in Hall. discriminate.
+    + eapply uniq_upd; eauto; cbn; discriminate.
+    + intros x Hx Hp. rewrite Forall_forall in Hall. specialize (Hall x Hx). destruct (tp x); discriminate.
+    + cbn [upd mm]. rewrite Er. exact Irc.
+    + intros x Hx Hp Hs. rewrite Forall_forall in Hall. specialize (Hall x Hx). rewrite Hp in Hall. discriminate.
+Qed.
+
+Lemma run_inv b sched : ok b = true -> forall c, Inv b c -> Inv b (run b sched c).
+Proof. intros Hok. induction sched as [|ch t IH]; intros c I; cbn; auto. apply IH, step_inv; auto. Qed.
+
+Theorem p3_sufficient b : ok b = true -> forall n sched, race (mm (run b sched (init n))) = false.
+Proof. intros Hok n sched. apply (m_race b), run_inv; auto using inv_init. Qed.
+
+(* at most one thread is between lock and unlock, for every choice of orders (RMW atomicity) is not needed here;
+   what the orders decide is whether the next owner sees the previous owner's writes *)
+Definition wit_fast : list (nat * nat) := [(0,0); (0,0); (0,0); (1,0); (1,0)].
+Definition wit_sub : list (nat * nat) := [(0,0); (1,1); (0,0); (0,0); (1,0); (1,0); (1,0)].
+Definition witness (b : bits) : list (nat * nat) := if ta b && ur b then wit_sub else wit_fast.
+
+Theorem p3_necessary b : ok b = false -> race (mm (run b (witness b) (init 2))) = true.
+Proof.
+  destruct b as [a1 a2 a3 a4 a5 a6 a7 a8 a9].
+  destruct a1, a7, a8, a4; cbn [ok ta ur xa sa andb orb]; intros H; try discriminate H;
+    destruct a2, a3, a5, a6, a9; vm_compute; reflexivity.
+Qed.
+
+Theorem p3_exact : forall b,
+  (ok b = true -> forall n sched, race (mm (run b sched (init n))) = false) /\
+  (ok b = false -> exists n sched, race (mm (run b sched (init n))) = true).
+Proof. intros b. split; [apply p3_sufficient|]. intros H. exists 2, (witness b). apply p3_necessary; auto. Qed.
+End P3Proofs.
